@@ -175,7 +175,8 @@ func runMachine(m *xpath.Machine, it Item) string {
 			return tree.ID{{Name: "lr"}, {Name: "target", Keys: map[string]string{"from": id.String(), "variant": fmt.Sprint(it.Var)}}}
 		}
 	}
-	res := xpath.NewCtxFromCurrent(context.Background(), m, tr.At(it.Ctx)).SetDebug(len(it.Src)%4 == 0).Run()
+	// (argument validation is one more option of a context; such contexts run side by side like any others)
+	res := xpath.NewCtxFromCurrent(context.Background(), m, tr.At(it.Ctx)).SetDebug(len(it.Src)%4 == 0).SetValidation(len(it.Src)%3 == 0).Run()
 	if err := res.GetError(); err != nil {
 		return "error: " + err.Error()
 	}
@@ -450,6 +451,26 @@ func checkRereg(c ReregCase) fw.Outcome {
 			}
 		}(g)
 	}
+	// ... and one goroutine compiles expressions that call built-in functions all the while: looking a function up and
+	// registering one go through the same table
+	wg.Add(1)
+	go func() {
+		defer wg.Done()
+		for {
+			select {
+			case <-stop:
+				return
+			default:
+			}
+			if _, err := expr.NewExprMachineWithCustomFunctions("contains('abc', 'b') and starts-with(a, 'x')", nil); err != nil {
+				mu.Lock()
+				problems = append(problems, fmt.Sprintf("an expression of built-in functions stopped compiling during a registration: %v", err))
+				mu.Unlock()
+				return
+			}
+			runtime.Gosched()
+		}
+	}()
 	for r := 0; r < c.Rounds; r++ {
 		registerSwap(swapV2, c.NewArgs)
 		runtime.Gosched()
